@@ -352,6 +352,17 @@ def worker_accept(rec, shard, nshards, seed):
         else:
             if i2 or len(dd.defs) != 2 or dd2.issues:
                 rec.violation("C09:dup:distinct-names-confused", a=a, b=b)
+        # the same two definitions coming from two dictionaries that are merged
+        try:
+            dd3 = DefinitionDict([DefinitionDict([a], env.schema), DefinitionDict([b], env.schema)], env.schema)
+            merged = {k: str(v.contents) for k, v in dd3.defs.items()}
+            if same and (merged != first or not dd3.issues):
+                rec.violation("C09:dup:merged-dictionaries:duplicate-not-ignored-or-not-reported", a=a, b=b, defs=merged,
+                              reported=bool(dd3.issues))
+            if not same and (len(merged) != 2 or dd3.issues):
+                rec.violation("C09:dup:merged-dictionaries:distinct-names-confused", a=a, b=b, defs=merged)
+        except Exception as e:
+            rec.violation("C09:dup:merged-dictionaries:raises:" + type(e).__name__, a=a, b=b, error=repr(e)[:200])
         rec.outcome("dup:" + str(same))
     # the same for names with letters whose lower-case form and case-folded form differ (sharp s, final sigma, ligatures)
     for nm, nm2 in (("Stra\u00dfe", "Stra\u00dfe"), ("Ma\u00df", "MASS"), ("Ma\u00df", "Ma\u00df"), ("\ufb01x", "\ufb01x"), ("\ufb01x", "FIX"),
